@@ -40,8 +40,8 @@ type LockAudit struct {
 	// that lock field satisfies the access.
 	Foreign map[*types.Var]bool
 	fns     []*ssa.Function
-	paths  map[*ssa.Function][]Path
-	roots  map[*ssa.Function]*Frame
+	paths   map[*ssa.Function][]Path
+	roots   map[*ssa.Function]*Frame
 	// per function summaries
 	req      map[*ssa.Function]map[lockReq]string // requirement -> example access position
 	acq      map[*ssa.Function]map[lockAcq]bool
